@@ -112,6 +112,14 @@ func (q *c11Sys) checkIn(a uint32) error {
 	if got != gold[i] {
 		return fmt.Errorf("EaRead($%06X) = %02x but the mapper designates %s[$%X] = %02x", a, got, class, i, gold[i])
 	}
+	// the array is the storage: changing it directly shows on the next read of the same address
+	arr[i] = gold[i] ^ 0x3C
+	var again byte
+	if pe := rig.Safe(func() error { again = q.s.Bus.EaRead(a); return nil }); pe != nil || again != gold[i]^0x3C {
+		arr[i] = gold[i]
+		return fmt.Errorf("after %s[$%X] was changed to %02x directly, EaRead($%06X) returns %02x (%v)", class, i, gold[i]^0x3C, a, again, pe)
+	}
+	arr[i] = gold[i]
 	nv := ^gold[i]
 	if pe := rig.Safe(func() error { q.s.Bus.EaWrite(a, nv); return nil }); pe != nil {
 		return fmt.Errorf("EaWrite($%06X) fails (%v) but the address is %s[$%X]", a, pe, class, i)
@@ -145,6 +153,39 @@ func (q *c11Sys) check24(bank uint32, off uint16) error {
 	}
 	if got != want {
 		return fmt.Errorf("EaRead24_wrap($%02X,$%04X) = $%06X, the three cells the mapper designates hold $%06X", bank, off, got, want)
+	}
+	return nil
+}
+
+// checkDump: EaDump over [start, start+n) puts, for every address of the console's layout, the designated cell
+// at position address-start and leaves the positions of unattached addresses untouched.
+func (q *c11Sys) checkDump(start uint32, n int) error {
+	if start+uint32(n) > 1<<24 {
+		n = int(1<<24 - start)
+	}
+	buf := make([]byte, n)
+	for i := range buf {
+		buf[i] = 0xA5
+	}
+	var cnt int
+	if pe := rig.Safe(func() error { cnt = q.s.Bus.EaDump(start, start+uint32(n)-1, buf); return nil }); pe != nil {
+		return fmt.Errorf("EaDump($%06X,+%d) failed: %v", start, n, pe)
+	}
+	if cnt != n {
+		return fmt.Errorf("EaDump($%06X,$%06X) returned %d, want %d", start, start+uint32(n)-1, cnt, n)
+	}
+	for i := 0; i < n; i++ {
+		a := start + uint32(i)
+		if !c11InT(a) {
+			continue
+		}
+		class, _, gold, idx, err := q.cell(a)
+		if err != nil || int(idx) >= len(gold) {
+			continue
+		}
+		if buf[i] != gold[idx] {
+			return fmt.Errorf("EaDump($%06X,$%06X) position %d (address $%06X) holds %02x but the mapper designates %s[$%X] = %02x", start, start+uint32(n)-1, i, a, buf[i], class, idx, gold[idx])
+		}
 	}
 	return nil
 }
@@ -185,6 +226,9 @@ func c11Check(c c11Case) error {
 		if err := q.check24(c.Addr>>16, uint16(c.Addr)); err != nil {
 			return err
 		}
+	}
+	if err := q.checkDump(c.Addr, 0x28); err != nil {
+		return err
 	}
 	return q.checkOne(c.Addr)
 }
@@ -274,6 +318,17 @@ func TestC11(t *testing.T) {
 							if rig.Safe(func() error { q.s.Bus.EaWrite(a, ^rig.Mix(seed, a)|1); return nil }) == nil {
 								outAccepted++
 							}
+						}
+					}
+					if failed {
+						break
+					}
+					// block reads across the region boundaries of this bank agree with the designated cells
+					for _, st := range []uint32{0x1FF3, 0x5FF8, 0x7FEC, 0xFFF5} {
+						if err := q.checkDump(bank<<16|st, 0x28); err != nil {
+							r.Violation("dump", c11Case{seed, bank<<16 | st}, err)
+							failed = true
+							break
 						}
 					}
 					if failed {
